@@ -46,9 +46,26 @@ def codec_of(fmt):
     return cd + (0,) if cd else None
 
 
-def codec_line(cd, ch, norm=1):
+def codec_line(cd, ch, norm=1, normD=None):
     kind, w, fw, noff, scale, trunc, woff = cd
-    return "codec kind=%s w=%d fw=%d noff=%d scale=%d trunc=%d woff=%d ch=%d normF=%d normD=%d" % (kind, w, fw, noff, scale or 0, trunc, woff, ch, norm, norm)
+    return "codec kind=%s w=%d fw=%d noff=%d scale=%d trunc=%d woff=%d ch=%d normF=%d normD=%d" % (kind, w, fw, noff, scale or 0, trunc, woff, ch, norm, norm if normD is None else normD)
+
+
+# the four settings of (SFC_SET_NORM_FLOAT, SFC_SET_NORM_DOUBLE): record suffix -> (plan handle, normF, normD).  "on" / "off" are the two
+# equal settings; "mixfd" / "mixdf" the two in which the switches DIFFER on one handle (a reader that looks at the wrong switch, a
+# command that restores the wrong one, only shows there)
+SETTINGS = [("on", "h7", 1, 1), ("off", "h8", 0, 0), ("mixfd", "h9", 0, 1), ("mixdf", "h10", 1, 0)]
+
+
+def queries(h, ch, rng):
+    """state-READING commands a caller may issue between reads: they must not change what the following reads deliver
+    (Sf.CrossTypeQ: a plan with queries is accepted iff the plan without them is).  The four SFC_CALC_* scans come first: they
+    switch norm_double themselves and have to put it back."""
+    calc = ["cmd %s 1040 8 zero" % h, "cmd %s 1041 8 zero" % h, "cmd %s 1042 %d zero" % (h, 8 * ch), "cmd %s 1043 %d zero" % (h, 8 * ch)]
+    other = ["cmd %s 1010 0 null" % h, "cmd %s 1011 0 null" % h, "cmd %s 1044 8 zero" % h, "cmd %s 1045 %d zero" % (h, 8 * ch), "cmd %s 10c1 0 null" % h,
+             "info %s" % h]
+    rng.shuffle(calc)
+    return calc, other
 
 
 def narrows(cd):
@@ -164,6 +181,13 @@ class Job:
                 self.flt["off-" + ty] = float_values_off(rng, 96 * ch, ty, cd)
         self.twins = {}
         self.plan_seed = rng.randrange(1 << 30)
+        # codecs without a stated float twin (G.711): the normalised vectors written with both switches on and with the OTHER type's switch off
+        # must give the same file (Sf.CrossTypeQ.wqueryOk: same items, a state the call does not look at differs)
+        self.gflt = {}
+        if cd[0] == "g711":
+            gr = random.Random(self.plan_seed)
+            for ty in ("f32", "f64"):
+                self.gflt[ty] = [v for v in float_values(gr, 300 * ch, ty)]
 
     def open_w(self, h, s):
         return "open %s %s w fmt=%08x ch=%d sr=%d" % (h, s, self.fmt.word, self.ch, self.sr)
@@ -178,11 +202,14 @@ class Job:
         L = []
         self.files = []
 
-        def wfile(k, ty, vals, normoff=False):
+        def wfile(k, ty, vals, normoff=False, other_off=False):
             h, s = "h%d" % k, "s%d" % k
             L.append(self.open_w(h, s))
             if normoff:
                 L.extend(["cmd %s 1013 0 null" % h, "cmd %s 1012 0 null" % h])
+            if other_off:
+                # the switch of the OTHER floating type is off: a float write looks at SFC_SET_NORM_FLOAT only, a double write at SFC_SET_NORM_DOUBLE only
+                L.append("cmd %s %s 0 null" % (h, "1012" if ty == "f32" else "1013"))
             # a few calls: the staging loops of the converting writers restart at every call
             cut = (len(vals) // (3 * self.ch)) * self.ch
             parts = [vals[:cut], vals[cut:]] if 0 < cut < len(vals) and k % 2 == 0 else [vals]
@@ -206,6 +233,19 @@ class Job:
                 wfile(k, ty, self.flt["off-" + ty], normoff=True)
                 wfile(k + 1, "s32", self.twins["off-" + ty])
             k += 2
+        # the normalised float / double vectors once more on a handle whose OTHER switch is off: same file as with both on
+        for ty in ("f32", "f64"):
+            if ty in self.twins:
+                wfile(k, ty, self.flt[ty], other_off=True)
+            k += 1
+        self.gfiles = {}
+        k = 3                                              # (a G.711 job has no float twins: slots 3..6 are free; the harness has 16 handle slots)
+        for ty in ("f32", "f64"):
+            if ty in self.gflt:
+                wfile(k, ty, self.gflt[ty])
+                wfile(k + 1, ty, self.gflt[ty], other_off=True)
+                self.gfiles[ty] = (k, k + 1)
+            k += 2
         return "\n".join(L) + "\n"
 
     def read_script(self, filehex, frames, seekable, rng, ncalls):
@@ -221,13 +261,23 @@ class Job:
             L += [self.open_r(h, "s0"), "cmd %s 1013 0 null" % h, "cmd %s 1012 0 null" % h, "r %s %s i %d" % (h, ty, n), "close " + h]
         self.plan_at = {}
         b = readcamp.block_hint(self.fmt)
-        for h, norm in (("h7", 1), ("h8", 0)):
+        for sfx, h, nF, nD in SETTINGS:
             L.append(self.open_r(h, "s0"))
-            if not norm:
-                L.extend(["cmd %s 1013 0 null" % h, "cmd %s 1012 0 null" % h])
-            self.plan_at[norm] = len(L)
+            if not nF:
+                L.append("cmd %s 1013 0 null" % h)
+            if not nD:
+                L.append("cmd %s 1012 0 null" % h)
+            self.plan_at[sfx] = len(L)
             pos, last = 0, None
-            for _ in range(ncalls):
+            calc, other = queries(h, ch, rng)
+            nc = ncalls if sfx in ("on", "off") else max(10, ncalls // 3)
+            for it in range(nc):
+                # a query in front of the call: the four CALC scans early (every one is followed by reads of all types), then the others
+                if seekable and frames > 0:
+                    if it in (1, 3, 5, 7) and calc:
+                        L.append(calc.pop())
+                    elif it > 7 and rng.random() < 0.2:
+                        L.append(rng.choice(other))
                 if seekable and frames > 0 and rng.random() < 0.3:
                     r = rng.random()
                     if r < 0.5:
@@ -241,8 +291,10 @@ class Job:
                 if pos >= frames and seekable:
                     pos = rng.randrange(0, max(frames, 1))
                     L.append("seek %s %d 0" % (h, pos))
-                # switch the type: never the same as the previous call's
+                # switch the type: never the same as the previous call's; right behind a CALC scan the two floating types take turns
                 ty = rng.choice([t for t in TYS if t != last])
+                if it in (1, 3, 5, 7) and seekable:
+                    ty = "f64" if last != "f64" else "f32"
                 last = ty
                 cnt = rng.choice([1, 1, 2, 3, 7, 33, b - 1 if b > 2 else 5, b, b + 1, 2 * b + 1, 100, 1000, 4097])
                 cnt = max(1, min(cnt, 5000))
@@ -374,7 +426,15 @@ def run(ctx, budget=45.0):
             if "off-" + ty in j.twins:
                 Woff += ["twin float " + ty, "xs " + K.hex_items(j.flt["off-" + ty], DIG[ty]), "ys " + K.hex_items(j.twins["off-" + ty], 8), "fx " + d[k], "fy " + d[k + 1]]
             k += 2
+        # mixed switches on the write side: the file written with the other type's switch off against the same int twin (records of the mixfd / mixdf settings)
+        Wmix = {"mixfd": [], "mixdf": []}
+        for ty, sfx, kt in (("f32", "mixdf", 4), ("f64", "mixfd", 6)):
+            if ty in j.twins and k in d:
+                Wmix[sfx] += ["twin float " + ty, "xs " + K.hex_items(j.flt[ty], DIG[ty]), "ys " + K.hex_items(j.twins[ty], 8), "fx " + d[k], "fy " + d[kt]]
+            k += 1
         stats["twin_files"] += len(j.files)
+        j.gmix_bad = [ty for ty, (ka, kb) in getattr(j, "gfiles", {}).items() if d.get(ka) != d.get(kb)]
+        stats["W_state_twins"] = stats.get("W_state_twins", 0) + len(getattr(j, "gfiles", {}))
         # (R) + (S)
         rl = rres.get(j.name, [])
         sl = j.rscript.strip().split("\n")
@@ -390,15 +450,17 @@ def run(ctx, budget=45.0):
                 ret = int(_kv(rl[i], "ret") or 0)
                 dat = _kv(rl[i], "data") or ""
                 refs[t[1]] = dat[:max(ret, 0) * DIG[t[2]]]
-        for norm in (1, 0):
-            lines = ["== %s/%s" % (j.name, "on" if norm else "off"), codec_line(j.cd, j.ch, norm)]
-            lines += W if norm else Woff
+        for sfx, h, nF, nD in SETTINGS:
+            lines = ["== %s/%s" % (j.name, sfx), codec_line(j.cd, j.ch, nF, nD)]
+            lines += W if sfx == "on" else Woff if sfx == "off" else Wmix[sfx]
             lines += ["ref s16 " + refs.get("h1", ""), "ref s32 " + refs.get("h2", ""),
-                      "ref f32 " + refs.get("h3" if norm else "h5", ""), "ref f64 " + refs.get("h4" if norm else "h6", ""), "ragree", "plan"]
-            a = j.plan_at[norm]
+                      "ref f32 " + refs.get("h3" if nF else "h5", ""), "ref f64 " + refs.get("h4" if nD else "h6", ""), "ragree", "plan"]
+            a = j.plan_at[sfx]
             e = a
             while not sl[e].startswith("close"):
                 lines += [sl[e], rl[e]]
+                if sl[e].startswith("cmd") or sl[e].startswith("info"):
+                    stats["S_queries"] = stats.get("S_queries", 0) + 1
                 e += 1
             rec.append("\n".join(lines))
     stats["t_records"] = round(time.time() - t0, 1)
@@ -439,14 +501,44 @@ CLAUSE_TEXT = {
 }
 
 
+SETTING_TEXT = {"on": "on", "off": "off", "mixfd": "float off / double on", "mixdf": "float on / double off"}
+
+
+def _focus(ctx, j, sfx, verdict):
+    """the read script cut down to the reference reads and the plan of the failing setting, the plan ending with the first rejected call
+    (kept only when `sfmodel crosstype` still rejects it)"""
+    try:
+        sl = j.rscript.strip().split("\n")
+        h = dict((s_, h_) for s_, h_, _, _ in SETTINGS)[sfx]
+        first_plan = min(j.plan_at.values()) - 1
+        while not sl[first_plan].startswith("open "):
+            first_plan -= 1
+        keep = sl[:first_plan]
+        a = j.plan_at[sfx]
+        k = a
+        while not sl[k].startswith("open "):
+            k -= 1
+        e = a
+        while not sl[e].startswith("close"):
+            e += 1
+        plan = sl[k:e]
+        m = [t for t in verdict.split() if t.startswith("call=")]
+        if m:
+            ncall = int(m[0][5:])
+            plan = sl[k:a + ncall + 1]
+        return "\n".join(keep + plan) + "\n"
+    except Exception:
+        return j.rscript
+
+
 def clauses(verdict):
     return [c.split()[0][len("clause="):] for c in verdict.replace("bad ", "", 1).split("; ") if c.startswith("clause=")]
 
 
-def _twin_files(ctx, job, tyx, xs, tyy, ys, normoff=False):
+def _twin_files(ctx, job, tyx, xs, tyy, ys, normoff=False, extra=None):
     L = []
     for k, (ty, vals) in enumerate(((tyx, xs), (tyy, ys))):
-        L += [job.open_w("h%d" % k, "s%d" % k)] + (["cmd h%d 1013 0 null" % k, "cmd h%d 1012 0 null" % k] if normoff and k == 0 else [])
+        L += [job.open_w("h%d" % k, "s%d" % k)] + (["cmd h%d 1013 0 null" % k, "cmd h%d 1012 0 null" % k] if normoff and k == 0 else []) + (list(extra or []) if k == 0 else [])
         L += ["w h%d %s i %d %s" % (k, ty, len(vals), K.hex_items(vals, DIG[ty])), "close h%d" % k, "dump s%d" % k]
     script = "\n".join(L) + "\n"
     lines, rc, err = ctx.script(script)
@@ -454,16 +546,16 @@ def _twin_files(ctx, job, tyx, xs, tyy, ys, normoff=False):
     return script, (len(d) == 2 and d[0] != d[1]) or rc != 0, d
 
 
-def shrink_twin(ctx, job, tyx, xs, tyy, ys, normoff=False):
+def shrink_twin(ctx, job, tyx, xs, tyy, ys, normoff=False, extra=None):
     """smallest prefix (whole frames) whose two files still differ, then drop leading frames while they still do"""
     step = job.ch
-    script, differs, _ = _twin_files(ctx, job, tyx, xs, tyy, ys, normoff)
+    script, differs, _ = _twin_files(ctx, job, tyx, xs, tyy, ys, normoff, extra)
     if not differs:
         return script, xs, ys
     lo, hi = 0, len(xs) // step
     while hi - lo > 1:
         mid = (lo + hi) // 2
-        s2, d2, _ = _twin_files(ctx, job, tyx, xs[:mid * step], tyy, ys[:mid * step], normoff)
+        s2, d2, _ = _twin_files(ctx, job, tyx, xs[:mid * step], tyy, ys[:mid * step], normoff, extra)
         if d2:
             hi = mid
         else:
@@ -473,10 +565,10 @@ def shrink_twin(ctx, job, tyx, xs, tyy, ys, normoff=False):
     for cutn in (len(xs) // step - 1, len(xs) // step // 2, 1, 1, 1):
         if cutn <= 0 or cutn * step >= len(xs):
             continue
-        s2, d2, _ = _twin_files(ctx, job, tyx, xs[cutn * step:], tyy, ys[cutn * step:], normoff)
+        s2, d2, _ = _twin_files(ctx, job, tyx, xs[cutn * step:], tyy, ys[cutn * step:], normoff, extra)
         if d2:
             xs, ys = xs[cutn * step:], ys[cutn * step:]
-    script, differs, _ = _twin_files(ctx, job, tyx, xs, tyy, ys, normoff)
+    script, differs, _ = _twin_files(ctx, job, tyx, xs, tyy, ys, normoff, extra)
     return script, xs, ys
 
 
@@ -491,7 +583,19 @@ def report(ctx, jobs, verdicts):
                 n += 1
                 ctx.violation("crosstype-%s-run" % j.name, "# C02 cross-type campaign, %s: %s\n--- script\n%s" % (j.name, j.why, getattr(j, "rscript", j.write_script())[:200000]), no_input=True)
             continue
-        for sfx, norm in (("on", 1), ("off", 0)):
+        for ty in getattr(j, "gmix_bad", []):
+            if ("W-state", j.fmt.codec, ty) in seen:
+                continue
+            seen.add(("W-state", j.fmt.codec, ty))
+            n += 1
+            extra = ["cmd h0 %s 0 null" % ("1012" if ty == "f32" else "1013")]
+            script, xs, ys = shrink_twin(ctx, j, ty, j.gflt[ty], ty, j.gflt[ty], normoff=False, extra=extra)
+            ctx.violation("crosstype-%s-W-state-%s" % (j.name, ty), "c02-crosstype W-state\n# C02 (%s, %d channel(s)): the file written from %s items depends on the normalisation switch of the OTHER floating type "
+                          "(\"with normalisation on … writes of x in [-1,1) store the nearest integer to x*(2^(w-1)-1)\": sf_write_%s looks at %s only)\n"
+                          "# twin files: both are written from the same %d item(s) %s, the first on a handle whose other switch was turned off; their dumps must be identical (Sf.CrossTypeQ.wqueryOk)\n# %s\n--- script\n%s"
+                          % (j.name, j.ch, ty, "float" if ty == "f32" else "double", "SFC_SET_NORM_FLOAT" if ty == "f32" else "SFC_SET_NORM_DOUBLE", len(xs), K.hex_items(xs[:8], DIG[ty]), codec_line(j.cd, j.ch, 1), script))
+        for sfx, _h, nF, nD in SETTINGS:
+            norm = nF
             v = verdicts.get("%s/%s" % (j.name, sfx))
             if v is None:
                 n += 1
@@ -507,7 +611,7 @@ def report(ctx, jobs, verdicts):
                 seen.add(key)
                 n += 1
                 head = "c02-crosstype %s\n# C02 (%s, %d channel(s), normalisation %s): %s\n# Lean verdict (Sf.CrossType, `sfmodel crosstype`): %s\n# %s\n" % (
-                    base, j.name, j.ch, sfx, CLAUSE_TEXT.get(base, base), v[:600], codec_line(j.cd, j.ch, norm))
+                    base, j.name, j.ch, SETTING_TEXT[sfx], CLAUSE_TEXT.get(base, base), v[:600], codec_line(j.cd, j.ch, nF, nD))
                 if cl.endswith("-twin") or cl.endswith("-class"):
                     ctx.violation("crosstype-%s-%s" % (j.name, cl), head + "# the campaign's twin vector is not the checker's twin: the campaign and lean/SfModel/CrossType.lean disagree\n", no_input=True)
                 elif base.startswith("W"):
@@ -515,6 +619,14 @@ def report(ctx, jobs, verdicts):
                         args = ("s32", j.xs, "s16", j.ys)
                     elif base == "W-widen":
                         args = ("s32", j.zs, "s16", j.ys)
+                    elif sfx in ("mixfd", "mixdf"):
+                        ty = "f32" if sfx == "mixdf" else "f64"
+                        extra = ["cmd h0 %s 0 null" % ("1012" if ty == "f32" else "1013")]
+                        args = (ty, j.flt[ty], "s32", j.twins[ty])
+                        script, xs, ys = shrink_twin(ctx, j, *args, normoff=False, extra=extra)
+                        ctx.violation("crosstype-%s-%s-%s" % (j.name, base, sfx), head + "# twin files: the first is written from %d %s item(s) %s on a handle whose OTHER normalisation switch is off, the second from the int twin(s) %s; "
+                                      "their dumps must be identical\n--- script\n%s" % (len(xs), ty, K.hex_items(xs[:8], DIG[ty]), K.hex_items(ys[:8], 8), script))
+                        continue
                     else:
                         # which float type failed: re-run both
                         args = None
@@ -533,7 +645,8 @@ def report(ctx, jobs, verdicts):
                                   % (len(xs), args[0], K.hex_items(xs[:8], DIG[args[0]]), args[2], K.hex_items(ys[:8], DIG[args[2]]), script))
                 else:
                     ctx.violation("crosstype-%s-%s-%s" % (j.name, base, sfx), head + "# the script reads the file through one handle per caller type (reference streams, normalisation on: h1..h4, off: h5 h6), then runs the "
-                                  "type-switching plans on h7 (normalisation on) and h8 (off)\n--- script\n%s" % j.rscript)
+                                  "type-switching plans on h7 (normalisation on), h8 (off), h9 (float off, double on) and h10 (float on, double off); the plans issue state-reading\n"
+                                  "# commands (SFC_CALC_*, SFC_GET_*) between the reads, which must not change what the reads deliver\n--- script\n%s" % _focus(ctx, j, sfx, v))
     return n
 
 
@@ -564,13 +677,17 @@ def replay(ctx, path):
             ret = int(_kv(lines[i], "ret") or 0)
             refs[t[1]] = (_kv(lines[i], "data") or "")[:max(ret, 0) * DIG[t[2]]]
     recs = []
-    for norm, h in ((1, "h7"), (0, "h8")):
-        cl = " ".join(t if not t.startswith(("normF=", "normD=")) else t[:6] + str(norm) for t in cline.split())
-        L = ["== %s" % ("on" if norm else "off"), cl, "ref s16 " + refs.get("h1", ""), "ref s32 " + refs.get("h2", ""),
-             "ref f32 " + refs.get("h3" if norm else "h5", ""), "ref f64 " + refs.get("h4" if norm else "h6", ""), "ragree", "plan"]
+    for sfx, h, nF, nD in SETTINGS:
+        if not any(len(op.split()) > 1 and op.split()[1] == h for op in sl):
+            continue
+        cl = " ".join(t if not t.startswith(("normF=", "normD=")) else t[:6] + str(nF if t.startswith("normF=") else nD) for t in cline.split())
+        L = ["== %s" % sfx, cl, "ref s16 " + refs.get("h1", ""), "ref s32 " + refs.get("h2", ""),
+             "ref f32 " + refs.get("h3" if nF else "h5", ""), "ref f64 " + refs.get("h4" if nD else "h6", ""), "ragree", "plan"]
+        started = False
         for i, op in enumerate(sl[:len(lines)]):
             t = op.split()
-            if len(t) > 1 and t[1] == h and t[0] in ("r", "seek"):
+            if len(t) > 1 and t[1] == h and (t[0] in ("r", "seek") or (started and t[0] in ("cmd", "info"))):
+                started = True
                 L += [op, lines[i]]
         recs.append("\n".join(L))
     out = ctx.run_model(["crosstype"], "\n".join(recs) + "\n")
